@@ -43,6 +43,12 @@ pub struct Take {
     pub drop_derives: Vec<String>,
     /// stub: only the signature is taken from the source; body is `unimplemented!()`, external_body
     pub stub: bool,
+    /// skel: emit the effect skeleton (L2) instead of the function text
+    pub skel: bool,
+    pub roles: Vec<(String, String)>,
+    pub drop_self: Option<String>,
+    pub closure_contracts: Vec<(String, String)>,
+    pub source: Option<String>,
     /// expect: the item's normalised source text must equal this text (else extraction problem)
     pub expect: Option<String>,
 }
@@ -56,6 +62,7 @@ pub enum Dir {
     Take(Take),
     /// method-call rewrite: `recv.NAME(args)` -> `FN(recv, args)` / `FN(&mut recv, args)` (declared per unit, R5)
     RewriteMethod(String, String, bool),
+    SkelCfg(String),
 }
 
 pub fn parse(text: &str, cdir: &str) -> Result<Vec<Dir>, String> {
@@ -111,10 +118,11 @@ pub fn parse(text: &str, cdir: &str) -> Result<Vec<Dir>, String> {
                 i += 1;
                 out.push(Dir::Raw(b));
             }
-            "take" | "stub" => {
+            "take" | "stub" | "skel" => {
                 let sel: Vec<String> = arg.split_whitespace().map(|s| s.to_string()).collect();
-                out.push(Dir::Take(Take { sel, stub: cmd == "stub", ..Default::default() }));
+                out.push(Dir::Take(Take { sel, stub: cmd == "stub", skel: cmd == "skel", ..Default::default() }));
             }
+            "skelcfg" => out.push(Dir::SkelCfg(arg.to_string())),
             "expect" => {
                 let sel: Vec<String> = arg.split_whitespace().map(|s| s.to_string()).collect();
                 let b = body(&lines, &mut i);
@@ -162,6 +170,12 @@ pub fn parse(text: &str, cdir: &str) -> Result<Vec<Dir>, String> {
                         }
                     }
                     "exec-const" => take.exec_const = Some(b),
+                    "role" => {
+                        let (a, r) = arg.rsplit_once(char::is_whitespace).ok_or(format!("bad @@.role at line {}", i))?;
+                        take.roles.push((a.trim().to_string(), r.trim().to_string()));
+                    }
+                    "drop-self" => take.drop_self = Some(arg.to_string()),
+                    "closure-contract" => take.closure_contracts.push((arg.to_string(), b)),
                     "drop-derive" => take.drop_derives = arg.split(',').map(|s| s.trim().to_string()).collect(),
                     x => return Err(format!("spec line {}: unknown sub-directive .{}", i, x)),
                 }
